@@ -114,6 +114,9 @@ type World struct {
 	names                    map[string]string // id -> abstract name
 	Rec                      *rec.Recorder     // last recorder used by ExecRec (BlockTwin events go there)
 	curChargeable            int
+	// DirectWrites is set by a driver that changed the current block's state outside a transaction (a direct
+	// state-context write); EndBlock then skips the BlockTwin oracle for this block and clears the flag.
+	DirectWrites bool
 	cancel                   context.CancelFunc
 }
 
@@ -432,10 +435,11 @@ func (w *World) BeginBlock(on ...*block.Block) *block.Block {
 // EndBlock seals the current block: sets its state, makes it the head.
 func (w *World) EndBlock() *block.Block {
 	b := w.Cur
-	if w.Rec != nil && w.curChargeable > 0 && os.Getenv("VERIF_NO_TWIN") == "" {
+	if w.Rec != nil && w.curChargeable > 0 && !w.DirectWrites && os.Getenv("VERIF_NO_TWIN") == "" {
 		w.twinBlock()
 	}
 	w.curChargeable = 0
+	w.DirectWrites = false
 	b.ClientState = w.CurState
 	b.ClientStateHash = w.CurState.GetRoot()
 	b.SetStateStatus(block.StateSuccessful)
